@@ -1,7 +1,7 @@
 (* Single entry point of the extracted model runner: name + argument -> observation. *)
 From Coq Require Import List NArith ZArith Bool.
 From Coq Require Import QArith.
-From NV Require Import Prelude.Str Prelude.Res Prelude.Sx Model.Url Model.Redirect Model.Bucket Model.Ip.
+From NV Require Import Prelude.Str Prelude.Res Prelude.Sx Model.Url Model.Redirect Model.Bucket Model.Ip Model.Titan Model.ServerProto.
 From NV Require Spec.C19 Spec.C16 Spec.C10 Spec.C09.
 Import ListNotations.
 Open Scope N_scope.
@@ -56,25 +56,25 @@ Definition fetch_of (ip6t t : sx) (_ : nat) (u : str) : res response :=
   | Err _ m => Err (lit "bad_url") m
   | OutOfModel => OutOfModel
   end.
-Definition show_outcome (o : outcome) : sx :=
+Definition show_outcome (o : Redirect.outcome) : sx :=
   match o with
   | Final r => L (sT "final" :: show_response r)
   | Fail k => L [sT "fail"; A k]
   | OutOfFuel => L [sT "fuel"]
   end.
-Definition read_outcome (x : sx) : outcome :=
+Definition read_outcome (x : sx) : Redirect.outcome :=
   match as_list x with
   | A tag :: rest => if eqb tag (lit "final") then Final (read_response (L rest))
                      else if eqb tag (lit "fail") then Fail (as_str (nth 0 rest (L [])))
                      else OutOfFuel
   | _ => OutOfFuel
   end.
-Definition show_walk (r : outcome * list str) : sx := L [show_outcome (fst r); L (map A (snd r))].
+Definition show_walk (r : Redirect.outcome * list str) : sx := L [show_outcome (fst r); L (map A (snd r))].
 
 (* ---- C10 ---- *)
 Definition as_Q (x : sx) : Q :=
   Qmake (as_Z (nth_sx 0 x)) (match as_N (nth_sx 1 x) with Npos p => p | N0 => 1%positive end).
-Definition read_event (x : sx) : event :=
+Definition read_event (x : sx) : Bucket.event :=
   if eqb (as_str (nth_sx 0 x)) (lit "r") then Req (as_Q (nth_sx 1 x)) (as_str (nth_sx 2 x))
   else Cleanup (as_Q (nth_sx 1 x)).
 Definition read_log_entry (x : sx) : Q * str * bool :=
@@ -98,6 +98,50 @@ Definition read_olist (x : sx) : option (list str) :=
   match as_opt x with Some l => Some (map as_str (as_list l)) | None => None end.
 Definition read_onet (x : sx) : option net :=
   match as_list x with [f; b; p] => Some (read_net x) | _ => None end.
+
+(* ---- server protocol ---- *)
+Definition read_body (x : sx) : body :=
+  match as_list x with
+  | [A t; A v] => if eqb t (lit "t") then BText v else BBytes v
+  | _ => BNone
+  end.
+Definition read_resp (x : sx) : resp :=
+  {| rs_status := as_Z (nth_sx 0 x); rs_meta := as_str (nth_sx 1 x); rs_body := read_body (nth_sx 2 x) |}.
+Definition read_hres (x : sx) : hres :=
+  let tag := as_str (nth_sx 0 x) in
+  if eqb tag (lit "value") then HValue (read_resp (nth_sx 1 x))
+  else if eqb tag (lit "raise") then HRaise (as_str (nth_sx 1 x))
+  else HAsync.
+Definition read_ostr (x : sx) : option str := match as_list x with [A s] => Some s | _ => None end.
+Definition read_task_outcome (x : sx) : ServerProto.outcome :=
+  let tag := as_str (nth_sx 0 x) in
+  if eqb tag (lit "resp") then OResp (read_resp (nth_sx 1 x))
+  else if eqb tag (lit "raise") then ORaise (as_str (nth_sx 1 x))
+  else if eqb tag (lit "mw") then OMw (as_bool (nth_sx 1 x)) (read_ostr (nth_sx 2 x))
+  else OMalformed.
+Definition read_sevent (x : sx) : ServerProto.event :=
+  let tag := as_str (nth_sx 0 x) in
+  if eqb tag (lit "read") then ERead (map as_str (as_list (nth_sx 1 x)))
+  else if eqb tag (lit "timer") then ETimer
+  else if eqb tag (lit "done") then EDone (N.to_nat (as_N (nth_sx 1 x))) (read_task_outcome (nth_sx 2 x))
+  else ELost.
+Definition s_ostr (o : option str) : sx := match o with Some s => L [A s] | None => L [] end.
+Definition sNat (n : nat) : sx := sN (N.of_nat n).
+Definition show_action (a : action) : sx :=
+  match a with
+  | AWrite b => L [sT "w"; A b]
+  | AClose => L [sT "c"]
+  | AMw id url ip fp => L [sT "mw"; sNat id; A url; A ip; s_ostr fp]
+  | AHandler line => L [sT "h"; A line]
+  | AHandlerTask id => L [sT "ht"; sNat id]
+  | AUpload id line c => L [sT "up"; sNat id; A line; A c]
+  | AOutOfModel => L [sT "oom"]
+  end.
+(* cfg: has_mw has_upload peer_ip fp hres ip6table *)
+Definition server_run (cfg evs : sx) : list (list action * bool) :=
+  ServerProto.run (ip6_of_table (nth_sx 5 cfg)) (fun _ => read_hres (nth_sx 4 cfg))
+    (as_bool (nth_sx 0 cfg)) (as_bool (nth_sx 1 cfg)) (as_str (nth_sx 2 cfg)) (read_ostr (nth_sx 3 cfg))
+    init (map read_sevent (as_list evs)).
 
 Definition dispatch (name : str) (arg : sx) : sx :=
   if eqb name (lit "parse_url") then
@@ -135,5 +179,10 @@ Definition dispatch (name : str) (arg : sx) : sx :=
     sB (Spec.C09.ok (as_bool (nth_sx 0 arg)) (map read_onet (as_list (nth_sx 1 arg)))
           (map read_onet (as_list (nth_sx 2 arg))) (as_bool (nth_sx 3 arg)) (read_addr (nth_sx 4 arg))
           (match as_list (nth_sx 5 arg) with [A t; b] => if eqb t (lit "admit") then Some (as_bool b) else None | _ => None end))
+  else if eqb name (lit "server") then
+    let r := server_run (nth_sx 0 arg) (nth_sx 1 arg) in
+    if existsb (fun x => existsb (fun a => match a with AOutOfModel => true | _ => false end) (fst x)) r
+    then L [sT "oom"]
+    else L (map (fun r => L [L (map show_action (fst r)); sB (snd r)]) r)
   else L [sT "unknown-model"; A name].
 Close Scope N_scope.
